@@ -103,9 +103,15 @@ fn run(args: &Args, rep: &mut Report) {
             |_| Value::Null,
         ),
     );
+    if args.tier == vcore::rt::Tier::Thorough {
+        checks::fuzzrun::campaign(rep, args, "strip", 400000, checks::oracle::fuzz_strip);
+    }
 }
 
 fn replay(_sub: &str, case: &Value) -> Result<(), String> {
+    if _sub.starts_with("libfuzzer-") {
+        return checks::oracle::fuzz_strip(&vcore::drive::case_bytes(case));
+    }
     check(&case_bytes(case)).map(|_| ())
 }
 
